@@ -117,6 +117,8 @@ def gen_fields(rng, depth, used_types, self_ok=True):
             f = {"k": "dict", "key": gen_leaf(rng) if kv[0] else None, "val": gen_leaf(rng) if kv[1] else None}
         elif r < 0.62 and depth > 0:
             f = {"k": "sub", "fields": gen_fields(rng, depth - 1, used_types, False)}
+            if rng.random() < 0.3:
+                f = {"k": "sub", "fields": [], "dynamic": rng.random() < 0.5}           # a section that declares nothing (yet) / a free-form section
         elif r < 0.70:
             f = gen_ctype(rng, used_types)
         elif r < 0.80:
@@ -220,6 +222,8 @@ def build_field(f, env):
     if k == "dict":
         return cc.DictField(build_field(f["key"], env) if f["key"] else None, build_field(f["val"], env) if f["val"] else None)
     if k == "sub":
+        if not f["fields"] and f.get("dynamic"):
+            return cc.Schema(dynamic=True)
         return build_schema(f["fields"], env)
     if k == "ctype":
         return core.ConfigTypeField(build_ctype(f, env))
@@ -253,9 +257,9 @@ def build_ctype(f, env):
     return cc.make_type(s, f["name"], module=f["module"])
 
 
-def build_schema(fields, env):
+def build_schema(fields, env, dynamic=False):
     import cincoconfig as cc
-    s = cc.Schema()
+    s = cc.Schema(dynamic=True) if dynamic else cc.Schema()
     for name, f in fields:
         setattr(s, name, build_field(f, env))
     return s
@@ -383,6 +387,12 @@ def check_one(ctx, res, spec, reqs, pend):
         schema = build_schema(spec["fields"], env)
         if spec["via"] == "config":
             target, args = schema(), (spec["cls"],)
+            if spec.get("runtime_keys"):
+                # a live configuration of a free-form schema that has picked up keys from a document: they are data, not declarations
+                schema = build_schema(spec["fields"], env, dynamic=True)
+                target = schema()
+                for key in spec["runtime_keys"]:
+                    target[key] = 1
         elif spec["via"] == "ctype":
             T = cc.make_type(schema, spec["cls"])
             target, args = T, (() if spec["explicit"] is None else (spec["explicit"],))
@@ -482,6 +492,8 @@ def gen_spec(rng):
     used = []
     spec = {"cls": rng.choice(["Thing", "AppConfig", "Settings", "Cfg"]), "via": rng.choice(["schema", "schema", "config", "ctype"]),
             "explicit": rng.choice([None, "Other"]), "fields": gen_fields(rng, 2, used)}
+    if spec["via"] == "config" and rng.random() < 0.4:
+        spec["runtime_keys"] = rng.sample(["reply-to", "content-type", "from", "class", "x-mailer", "ok_name", "1st", "a b"], rng.randint(1, 3))
     return spec
 
 
